@@ -527,6 +527,17 @@ def run(ctx):
     def run_input(inp):
         if inp.get('kind') == 'lbuf':
             one_lbuf(vlib.unhx(inp['init']), list(inp['ops']), 'replay')
+        elif inp.get('kind') == 'ex2':
+            # a fixed script over several files; the final text of the current buffer is given
+            script = ('\n'.join(inp['script']) + '\nec @@1@@\n%p\nec @@-@@\nq!\n').encode()
+            files = {k: v.encode('latin-1') for k, v in inp['files'].items()}
+            r = vlib.run_ex(vi, script, files=files, args=[sorted(files)[0]], timeout=20)
+            res.evaluations += 1
+            m = re.search(rb'@@1@@(.*?)@@-@@', r.out, re.S)
+            got = m.group(1).decode('latin-1') if m else None
+            if got != inp['expect']:
+                res.violation({'what': 'ex: the undo after these command lines did not restore the text before the most recent modifying command line',
+                               'input': inp, 'expected': inp['expect'], 'observed': got})
         elif inp.get('kind') == 'viwalk':
             r = run_vi_walk(vi, inp['file'].encode('latin-1'), [tuple(c) for c in inp['cmds']], inp['undos'], inp['redos'], inp.get('pre', ''))
             res.evaluations += 1
